@@ -446,6 +446,9 @@ class MayRaise:
         if isinstance(op, (ast.RShift, ast.LShift)):
             if not (isinstance(right, ast.Constant) and isinstance(right.value, int) and right.value >= 0):
                 out.add(self._mk("ValueError", node, f"shift by a possibly negative count: {norm(node)[:60]}"))
+        left = getattr(node, "left", None)
+        if isinstance(op, ast.Mod) and isinstance(left, ast.Constant) and isinstance(left.value, str):
+            return out  # "template" % args is string formatting, not a division
         if isinstance(op, (ast.Div, ast.FloorDiv, ast.Mod)):
             if not (isinstance(right, ast.Constant) and isinstance(right.value, (int, float)) and right.value != 0):
                 v = self.eng.const_of(self._f.module, right)
